@@ -100,6 +100,17 @@ def gen_archives(rnd, tier):
     out.append(('huge-packed-alone', [mk(3, name=b'hugep', size=12, packed=2 ** 32 - 1)]))
     for w in (1, 12, 13, 14, 19, 20, 21, 300):
         out.append(('name-width-%d' % w, [mk(2, name=b'n' * w, perms=0o100644), mk(1, name=b'm' * min(w, 200), path=b'dir/'), mk(3, name=b'k' * w, target=b'x' * w)]))
+    # lengths around the powers of two (whatever buffers the formatting code may use): names, directory paths and link targets
+    # of 60..66, 120..131, 250..260, 508..516 and 1000 characters
+    lens = list(range(60, 67)) + list(range(120, 132)) + list(range(250, 261)) + list(range(508, 517)) + [1000]
+    for i in range(0, len(lens), 8):
+        ms = []
+        for w in lens[i:i + 8]:
+            ms.append(mk(2, name=b'N' + b'n' * (w - 1), perms=0o100644))
+            ms.append(mk(2, name=b'x.txt', path=b'D' + b'd' * (w - 2) + b'/'))
+            ms.append(mk(2, name=b'l%d' % w, target=b'T' + b't' * (w - 1)))
+            ms.append(mk(3, name=b'L' + b'k' * (w - 1), target=b'tgt'))
+        out.append(('string-lengths-%d..%d' % (lens[i], lens[min(i + 7, len(lens) - 1)]), ms))
     out.append(('single-file', [mk(2, name=b'only')]))
     out.append(('empty-archive-of-dirs', [mk(2, method=b'-lhd-', path=b'a/'), mk(1, method=b'-lhd-', path=b'a/b/')]))
     # random headers from the C05 generator (all levels, ext-header mixes), list-only
